@@ -228,10 +228,14 @@ def snapshot(node, prev: Optional[Dict[Key, Dict]] = None) -> Dict[Key, Dict]:
 
     for key, cands in fo_c.items():
         o, is_live = choose(key, cands)
-        out[key] = {"a": o.health_status.name, "v": o.visible_health_status.name, "del": not is_live, "id": id(o)}
+        out[key] = {"a": o.health_status.name, "v": o.visible_health_status.name, "del": not is_live, "id": id(o),
+                    "nv": sorted({c.visible_health_status.name for c, _ in cands}),
+                    "cv": {id(c): c.visible_health_status.name for c, _ in cands}}
     for key, cands in fi_c.items():
         o, is_live = choose(key, cands)
-        out[key] = {"a": o.health_status.name, "v": o.visible_health_status.name, "del": not is_live, "id": id(o)}
+        out[key] = {"a": o.health_status.name, "v": o.visible_health_status.name, "del": not is_live, "id": id(o),
+                    "nv": sorted({c.visible_health_status.name for c, _ in cands}),
+                    "cv": {id(c): c.visible_health_status.name for c, _ in cands}}
     out[("node",)] = {"on": node.operating_state == NodeOperatingState.ON}
     return out
 
@@ -502,7 +506,33 @@ def run_case(case: Dict) -> CaseResult:
             if key[0] == "node" or key not in prev:
                 continue
             was = prev[key]
-            if was["v"] == now["v"] or recreated(was, now):
+            if recreated(was, now):
+                # A deleted name carried by a new object (database restore after database.db / its folder was deleted).
+                # Re-creating is not a scan: the new object may show the visible health the item had before it was
+                # deleted, or NONE (never scanned) - never a value that no scan published. Skipped only when a scan of
+                # that folder can complete in this very step (it would have read the new object).
+                scanned_now = any(p.kind in ("fscan", "nscan") and p.covers(key) for p in comp)
+                own = was.get("cv", {}).get(now["id"])
+                if own is not None:
+                    # not a new object: an older deleted namesake was un-deleted (folder restore); it keeps its own
+                    # last published value
+                    if now["v"] != own and not scanned_now:
+                        res.violate(f"undeleted-item-visible-changed:{kind_of(key)}",
+                                    f"{when}: the un-deleted older copy of {key} showed {own} when deleted and shows "
+                                    f"{now['v']} now, no scan completed")
+                elif now["v"] not in (was["v"], "NONE") and not scanned_now:
+                    if now["v"] in was.get("nv", []):
+                        res.violate(f"recreated-item-visible-stale:{kind_of(key)}",
+                                    f"{when}: {key} was deleted showing {was['v']}, the re-created object shows "
+                                    f"{now['v']} - the visible health of an older deleted namesake "
+                                    f"({was.get('nv')}), no scan completed")
+                    else:
+                        res.violate(f"recreated-item-visible-without-scan:{kind_of(key)}",
+                                    f"{when}: {key} was deleted showing {was['v']} (true health {was['a']}), the "
+                                    f"re-created object shows {now['v']} (true health {now['a']}) and no scan covering "
+                                    f"it completed in this step")
+                continue
+            if was["v"] == now["v"]:
                 continue
             kd = kind_of(key)
             instant = ok and (
@@ -863,9 +893,19 @@ def phrase_strategy():
         st.integers(0, 3), st.booleans(), st.integers(0, 3),
     ).map(lambda t: [t[0]] + [["tick"]] * t[1] + ([["power", "startup"]] if t[2] else []) + [["tick"]] * t[3])
 
+    dbf = ["file", "database", "database.db"]
+    db_restore = st.tuples(
+        st.sampled_from([[dbf + ["corrupt"]], [["db", "ENCRYPT"]], [["db", "DELETE"]], [dbf + ["corrupt"], dbf + ["scan"]],
+                         [dbf + ["corrupt"], dbf + ["scan"], dbf + ["repair"]], [dbf + ["scan"], dbf + ["corrupt"]],
+                         [["os_scan"]], []]),
+        st.sampled_from([[dbf + ["delete"]], [["folder", "database", "delete"]], []]),
+        _mix(st.sampled_from([dbf + ["scan"], ["folder", "database", "scan"], ["os_scan"], dbf + ["delete"]]), 1, 7),
+    ).map(lambda t: [["tick"]] + t[0] + t[1] + [["sw", "database-service", "fix"]] + t[2])
+
     return st.one_of(
         op_strategy().map(lambda o: [o]),
         st.integers(1, 6).map(lambda k: [["tick"]] * k),
+        db_restore,
         sw.flatmap(fix_phrase), sw.flatmap(fix_phrase),
         fo.flatmap(fscan_phrase), fo.flatmap(fscan_phrase),
         st.just(None).flatmap(nscan_phrase),
@@ -914,25 +954,29 @@ def enumerated_cases():
             "fsrestore": (base_cfg_case(frestore=d), [["file", "fa", "x.txt", "corrupt"], ["folder", "fa", "delete"],
                                                       ["folder", "fa", "fsrestore"]]),
         }
+        dbfix = ["sw", "database-service", "fix"]
+        dbf = ["file", "database", "database.db"]
+        cfgd = base_cfg_case(fix={n: d for n in SW})
+        # backup is taken in the first tick; damage without a scan (or scan + repair), delete database.db, restore by fix
+        progs["dbrestore-corrupt-unscanned"] = (cfgd, [["tick"], dbf + ["corrupt"], dbf + ["delete"], dbfix])
+        progs["dbrestore-encrypt-unscanned"] = (cfgd, [["tick"], ["db", "ENCRYPT"], dbf + ["delete"], dbfix])
+        progs["dbrestore-seen-corrupt-repaired"] = (cfgd, [["tick"], dbf + ["corrupt"], dbf + ["scan"], dbf + ["repair"],
+                                                          dbf + ["delete"], dbfix])
+        progs["dbrestore-folder-deleted"] = (cfgd, [["tick"], dbf + ["corrupt"], dbf + ["scan"], dbf + ["repair"],
+                                                    ["folder", "database", "delete"], dbfix])
         for name, (cfg, head) in progs.items():
             tail = [T] * (d + 3)
-            yield {"cfg": cfg, "ops": head + tail}
+            yield {"cfg": cfg, "ops": head + tail, "tag": "straight"}
             for pos in range(0, d + 2):
                 for ev in interf:
                     yield {"cfg": cfg, "ops": head + [T] * pos + [ev] + [T] * (d + 3 - pos)}
-
-
-def _straight(ops: List) -> bool:
-    """head of events followed only by ticks"""
-    i = ops.index(["tick"])
-    return all(o == ["tick"] for o in ops[i:])
 
 
 def worker(ctx: Ctx):
     cases = list(enumerated_cases())
     if ctx.tier == "quick":
         # every straight-line program plus every 2nd interference variant
-        cases = [c for j, c in enumerate(cases) if _straight(c["ops"]) or j % 2 == 0]
+        cases = [c for j, c in enumerate(cases) if c.get("tag") == "straight" or j % 2 == 0]
     enum_run(ctx, cases, run_case)
     if ctx.idx == 0:
         ctx.extra["enumerated_family_cases"] = len(cases)
